@@ -17,10 +17,11 @@ let view_of = function
   | _ -> failwith "view"
 
 let cfg_of = function
-  | List [Atom "cfg"; kind; ro; push; del; bdel; refr; mlimit; rlimit] ->
+  | List [Atom "cfg"; kind; ro; push; del; bdel; refr; mlimit; rlimit; umax] ->
       { c_kind = (match kind with Atom "dir" -> KDir | _ -> KMem);
         c_readonly = bool ro; c_push = bool push; c_delete = bool del; c_blobdelete = bool bdel;
-        c_referrer = bool refr; c_mlimit = z_of_int (int mlimit); c_rlimit = z_of_int (int rlimit) }
+        c_referrer = bool refr; c_mlimit = z_of_int (int mlimit); c_rlimit = z_of_int (int rlimit);
+        c_uploadmax = z_of_int (int umax) }
   | _ -> failwith "cfg"
 
 let range_of = function
@@ -79,6 +80,9 @@ let req_of (locs : (int, string) Hashtbl.t) (x : Sexp.t) : req option =
   | List [Atom "tags"; r; n; l] -> Some (QTagList (s r, s n, s l))
   | List [Atom "refs"; r; a; f] -> Some (QReferrers (s r, s a, s f))
   | List [Atom "tick"; dt] -> Some (QTick (z_of_int (int dt)))
+  | List [Atom "expire"; r] -> Some (QExpire (s r))
+  | List [Atom "prunecount"; r] -> Some (QPruneCount (s r))
+  | List [Atom "restart"] -> Some QRestart
   | List [Atom "skip"] -> None
   | _ -> failwith "req"
 
@@ -99,6 +103,22 @@ let run_case (line : string) : string =
       let st = ref init_state in
       (try
          List.iteri (fun i x ->
+             match x with
+             | List [Atom "tagwalk"; r; n] ->
+                 (* follow the model's Link chain like the harness follows the implementation's *)
+                 let pages = ref [] in
+                 let last = ref "" in
+                 let continue = ref true in
+                 let cnt = ref 0 in
+                 while !continue && !cnt < 60 do
+                   incr cnt;
+                   let (s', rsp) = step cfg env !st (QTagList (cl (str r), cl (str n), cl !last)) in
+                   st := s';
+                   pages := json_resp rsp :: !pages;
+                   if rsp.rs_link = [] then continue := false else last := lc rsp.rs_link
+                 done;
+                 outs := Printf.sprintf "{\"pages\":[%s]}" (String.concat "," (List.rev !pages)) :: !outs
+             | _ ->
              match req_of locs x with
              | None -> outs := "{\"skip\":true}" :: !outs
              | Some q ->
